@@ -23,16 +23,16 @@ use crate::execution_step::value_types::IterableItem;
 use crate::execution_step::value_types::IterableVecResolvedCall;
 use crate::execution_step::ValueAggregate;
 
-use air_interpreter_data::GenerationIdx;
-
 pub(crate) type IterableValue = Box<dyn for<'ctx> Iterable<'ctx, Item = IterableItem<'ctx>>>;
 
-/// Tracks a state of a stream by storing last generation of every value type.
-#[derive(Debug, Clone, Copy)]
+/// Tracks a state of a stream by storing the number of already seen values in every generation
+/// of every value type: a value that comes from data is put into the generation recorded in the data,
+/// which could be any generation, not only the last ones.
+#[derive(Debug, Clone)]
 pub struct StreamCursor {
-    pub previous_start_idx: GenerationIdx,
-    pub current_start_idx: GenerationIdx,
-    pub new_start_idx: GenerationIdx,
+    pub previous_seen: Vec<usize>,
+    pub current_seen: Vec<usize>,
+    pub new_seen: Vec<usize>,
 }
 
 /// Intended to generate values for recursive stream handling.
@@ -42,7 +42,7 @@ pub struct StreamCursor {
 ///    met_fold_start  - met_iteration_end - ... met_iteration_end - Exhausted
 ///          |                  |
 ///      Exhausted          Exhausted
-#[derive(Debug, Clone, Copy)]
+#[derive(Debug, Clone)]
 pub(crate) struct RecursiveStreamCursor {
     cursor: StreamCursor,
 }
@@ -85,7 +85,7 @@ impl RecursiveStreamCursor {
     }
 
     fn cursor_state(&self, stream: &Stream<ValueAggregate>) -> RecursiveCursorState {
-        let slice_iter = stream.slice_iter(self.cursor);
+        let slice_iter = stream.slice_iter(self.cursor.clone());
         let iterable = Self::slice_iter_to_iterable(slice_iter);
 
         RecursiveCursorState::from_iterable_values(iterable)
@@ -110,21 +110,17 @@ fn remove_last_generation_if_empty(stream: &mut Stream<ValueAggregate>) {
 impl StreamCursor {
     pub(crate) fn empty() -> Self {
         Self {
-            previous_start_idx: GenerationIdx::from(0),
-            current_start_idx: GenerationIdx::from(0),
-            new_start_idx: GenerationIdx::from(0),
+            previous_seen: vec![],
+            current_seen: vec![],
+            new_seen: vec![],
         }
     }
 
-    pub(crate) fn new(
-        previous_start_idx: GenerationIdx,
-        current_start_idx: GenerationIdx,
-        new_start_idx: GenerationIdx,
-    ) -> Self {
+    pub(crate) fn new(previous_seen: Vec<usize>, current_seen: Vec<usize>, new_seen: Vec<usize>) -> Self {
         Self {
-            previous_start_idx,
-            current_start_idx,
-            new_start_idx,
+            previous_seen,
+            current_seen,
+            new_seen,
         }
     }
 }
